@@ -207,10 +207,12 @@ def run(fn, xs, ys, k, limit=TIMEOUT_S):
     # the limit is CPU time of this process (ITIMER_PROF), so machine load cannot trip it
     signal.signal(signal.SIGPROF, _on_alarm)
     a, b = list(xs), list(ys)
+    # programs over lists of tuples take qs, ps, rs, derived from xs, ys
+    extra = G.tuple_args(xs, ys) if len(fn.ast.args) == 6 else ()
     try:
         signal.setitimer(signal.ITIMER_PROF, limit)
         try:
-            v = fn(a, b, k)
+            v = fn(a, b, k, *extra)
         finally:
             signal.setitimer(signal.ITIMER_PROF, 0)
     except _Timeout:
